@@ -132,6 +132,20 @@ def etree_iter_strings(elem: Union[DocumentProtocol, ElementProtocol],
                 yield e.tail
 
 
+def etree_iter_text(elem: ElementProtocol) -> Iterator[str]:
+    """
+    Iterates the text chunks of an element in document order: the tail of a child comes
+    after the text of its descendants, comments and processing instructions contribute
+    only their tail.
+    """
+    if not callable(elem.tag) and elem.text is not None:
+        yield elem.text
+    for child in elem:
+        yield from etree_iter_text(child)
+        if child.tail is not None:
+            yield child.tail
+
+
 def etree_deep_equal(e1: ElementProtocol, e2: ElementProtocol) -> bool:
     if e1.tag != e2.tag:
         return False
